@@ -2,9 +2,10 @@ package main
 
 import (
 	"fmt"
-	"os"
+	"go/ast"
 	"go/token"
 	"go/types"
+	"os"
 	"sort"
 	"strings"
 
@@ -298,7 +299,20 @@ func (vc *FnVC) mergeStates(es []edge) *State {
 		pcs = append(pcs, e.pc)
 	}
 	out.pc = vc.define("pc", "Bool", smtOr(pcs...))
+	out.dflt = es[0].st.dflt
+	for _, e := range es[1:] {
+		if e.st.dflt != out.dflt {
+			// different "unknown effects" histories: keys never mentioned so far are havocked (sound, coarse)
+			vc.havocAll(out)
+			break
+		}
+	}
 	keys := map[string]bool{}
+	if out.dflt != es[0].st.dflt {
+		for k := range vc.keys { // keys known so far are merged precisely
+			keys[k] = true
+		}
+	}
 	for _, e := range es {
 		for k := range e.st.m {
 			keys[k] = true
@@ -393,11 +407,10 @@ func (vc *FnVC) mergeInto(b *ssa.BasicBlock) *State {
 	}
 	// make sure keys exist before havoc
 	for k := range keys {
-		if vc.keys[k] == nil {
-			if ki := vc.G.keyInfo(k); ki != nil {
-				vc.keyFrom(ki)
-			}
-		}
+		vc.ensureKey(k)
+	}
+	if all {
+		vc.havocAll(st)
 	}
 	preAlloc := vc.get(st, "$alloc")
 	// keys written in the loop only at objects allocated by this function: havocked too, but every object that
@@ -638,14 +651,14 @@ func (vc *FnVC) checkAts(st *State, in ssa.Instruction) {
 	if os.Getenv("GOVC_DEBUG_AT") != "" {
 		fmt.Fprintf(os.Stderr, "at-text %T %q\n", in, txt)
 	}
-	for _, a := range vc.unit.Ats {
+	for ai, a := range vc.unit.Ats {
 		if !strings.Contains(txt, a.Text) {
 			continue
 		}
 		if _, isCall := in.(ssa.CallInstruction); a.CallOnly && !isCall {
 			continue
 		}
-		key := fmt.Sprintf("%p|%s", in, a.Text)
+		key := fmt.Sprintf("%p|%s|%d", in, a.Text, ai)
 		if vc.atDone == nil {
 			vc.atDone = map[string]bool{}
 		}
@@ -741,6 +754,91 @@ func (vc *FnVC) doReturn(st *State, r *ssa.Return) {
 	}
 	vc.enumChecks(st, env)
 	vc.preservesCheck(st, env)
+	vc.checkLoopReturns(st, r, rs)
+}
+
+// astLoop maps an SSA loop to the innermost for/range statement of the function's syntax that contains the
+// positions of all its instructions.
+func (vc *FnVC) astLoop(li *loopInfo) ast.Node {
+	if li.astDone {
+		return li.ast
+	}
+	li.astDone = true
+	syn := vc.fn.Syntax()
+	if syn == nil {
+		return nil
+	}
+	var ps []token.Pos
+	for b := range li.blocks {
+		for _, in := range b.Instrs {
+			if p := in.Pos(); p.IsValid() && p >= syn.Pos() && p <= syn.End() {
+				ps = append(ps, p)
+			}
+		}
+	}
+	if len(ps) == 0 {
+		return nil
+	}
+	ast.Inspect(syn, func(n ast.Node) bool {
+		switch n.(type) {
+		case *ast.ForStmt, *ast.RangeStmt:
+			for _, p := range ps {
+				if p < n.Pos() || p > n.End() {
+					return true
+				}
+			}
+			li.ast = n // inner loops are visited later and overwrite
+		case *ast.FuncLit:
+			return false
+		}
+		return true
+	})
+	return li.ast
+}
+
+// checkLoopReturns: `returns` clauses of every loop whose body lexically contains this return statement.
+func (vc *FnVC) checkLoopReturns(st *State, r *ssa.Return, rs []*Val) {
+	if !r.Pos().IsValid() {
+		return
+	}
+	for _, li := range vc.loops {
+		if li.spec == nil || len(li.spec.Returns) == 0 {
+			continue
+		}
+		n := vc.astLoop(li)
+		if n == nil {
+			vc.contractError("loop %d: cannot locate the loop in the syntax (returns clause)", li.ordinal)
+			continue
+		}
+		var body *ast.BlockStmt
+		switch l := n.(type) {
+		case *ast.ForStmt:
+			body = l.Body
+		case *ast.RangeStmt:
+			body = l.Body
+		}
+		if body == nil || r.Pos() < body.Pos() || r.Pos() > body.End() {
+			continue
+		}
+		env := vc.envAt(st, li)
+		env.bodyLocals = true
+		env.results = rs
+		env.atReturn = true
+		for i, c := range li.spec.Returns {
+			t, err := vc.evalBool(env, c.E)
+			if err != nil {
+				vc.contractError("loop %d returns %q: %v", li.ordinal, c.Text, err)
+				continue
+			}
+			lbl := c.Name
+			if lbl == "" {
+				lbl = fmt.Sprintf("returns%d", i+1)
+			}
+			if o := vc.oblige(st, "loop-returns", fmt.Sprintf("loop%d/%s", li.ordinal, lbl), t, "holds at every return inside the loop: "+c.Text); o != nil {
+				o.Rets = rs
+			}
+		}
+	}
 }
 
 func clauseLabel2(c Clause, i int) string {
@@ -1265,13 +1363,12 @@ func (vc *FnVC) havocSet(st *State, ws map[string]bool, all bool) {
 		}
 	}
 	pre := vc.allocTerm(st)
+	if all {
+		vc.havocAll(st)
+	}
 	for _, k := range sortedKeys(ws) {
-		if vc.keys[k] == nil {
-			if ki := vc.G.keyInfo(k); ki != nil {
-				vc.keyFrom(ki)
-			} else {
-				continue
-			}
+		if !vc.ensureKey(k) {
+			continue
 		}
 		old := vc.get(st, k)
 		vc.havocKey(st, k)
